@@ -2,3 +2,4 @@ import CatiiModel.Dtypes
 import CatiiModel.Gen.FitDtype
 import CatiiModel.Gen.Consts
 import CatiiModel.Kernels
+import CatiiModel.Indx
